@@ -271,7 +271,10 @@ class SO3(SMPose):
 
         :seealso: :func:`~spatialmath.quaternion.AngVec`, :func:`~angvec2r`
         """
-        return base.tr2angvec(self.R, unit=unit)
+        if len(self) == 1:
+            return base.tr2angvec(self.R, unit=unit)
+        else:
+            return [base.tr2angvec(x, unit=unit) for x in self.R]
 
     # ------------------------------------------------------------------------ #
 
